@@ -330,6 +330,15 @@ func (e *SpecEnv) ident(n *ast.Ident) (SV, types.Type) {
 			return v, t
 		}
 	}
+	// a source name declared several times in the function (three loops with their own `i`):
+	// inside a loop the declaration used by that loop is meant
+	if !e.inOld && e.fr != nil && e.fr.curLoop != nil {
+		if a := allocUsedInLoop(e.fr.curLoop, n.Name); a != nil && a != e.fr.named[n.Name] {
+			if v, t, ok := e.localVar(a); ok {
+				return v, t
+			}
+		}
+	}
 	if e.useCells && !e.inOld && e.fr != nil {
 		if a, ok := e.fr.named[n.Name]; ok {
 			if _, isParam := e.fr.params[n.Name]; !isParam || e.depth >= 0 {
@@ -1560,4 +1569,24 @@ func (e *SpecEnv) pureCallInSpec(fn *ssa.Function, recv *bound, args []ast.Expr)
 	}
 	c.trusted["extern-pure: "+fn.String()+" (deterministic function of its arguments)"] = true
 	return Sc{c.uf("ext$"+fn.String(), rs, ts...)}, rt
+}
+
+func allocUsedInLoop(li *loopInfo, name string) *ssa.Alloc {
+	var found *ssa.Alloc
+	for b := range li.blocks {
+		for _, in := range b.Instrs {
+			for _, op := range in.Operands(nil) {
+				if op == nil || *op == nil {
+					continue
+				}
+				if a, ok := (*op).(*ssa.Alloc); ok && a.Comment == name {
+					if found != nil && found != a {
+						return nil // ambiguous inside the loop as well
+					}
+					found = a
+				}
+			}
+		}
+	}
+	return found
 }
